@@ -243,6 +243,11 @@ def run(ctx):
     n = ctx.budget(60_000, 1_000_000)
     done = 0
     while done < n and ctx.alive():
+        if rng.random() < 0.005:
+            from ..gen_stepper import failed_call
+            failed_call(rng, rng.choice((plot_utils.parseLengthWithUnits, plot_utils.unitsToUserUnits,
+                                         plot_utils.userUnitToUnits, plot_utils.getLength)), rng.choice((1, 2, 3)))
+            ctx.tag("history: after a failed call (malformed arguments)")
         cls, text, num, unit = gen_case(rng)
         ref = rng.choice((None, None, 100, 297.0, 1056, 0.5))
         default = rng.choice((100, 793.7, 1, 3508, 0, 0.0, -50, 1e-3))
